@@ -1,6 +1,6 @@
 (* C10 — defaults and triggered calculations are applied exactly once.
    Only statements closed by exact, with Print Assumptions beneath each. *)
-Require Import PX.Base.Str PX.Model.Warnings PX.Model.Tree PX.Proofs.Tree PX.Gen.Defaults PX.Model.Defaults PX.Proofs.Defaults PX.Gen.Lexer PX.Model.Scanner PX.Proofs.Scanner PX.Proofs.PinsScanner PX.Model.Names PX.Model.RefText PX.Proofs.RefText.
+Require Import PX.Base.Str PX.Model.Warnings PX.Model.Tree PX.Proofs.Tree PX.Gen.Defaults PX.Model.Defaults PX.Proofs.Defaults PX.Gen.Lexer PX.Model.Scanner PX.Proofs.Scanner PX.Proofs.PinsScanner PX.Model.Names PX.Model.RefText PX.Proofs.RefText PX.Proofs.ScanFacts.
 From Coq Require Import Permutation.
 
 (* every node of a question in the primary instance, repeat templates included, holds the static default of THAT question
@@ -77,6 +77,11 @@ Theorem C10_reference_default_is_dynamic : forall name ty, ncname_plain name ->
   default_is_dynamic tokens ([36;123]%N ++ LAST_SAVED ++ name ++ [125]%N) ty = true.
 Proof. exact reference_default_is_dynamic. Qed.
 Print Assumptions C10_reference_default_is_dynamic.
+(* an integer literal is one NUMBER token, hence a static default, for EVERY non-empty digit string and EVERY question type *)
+Theorem C10_integer_default_is_static : forall s ty, all_digits s ->
+  scan s = ([([78;85;77;66;69;82]%N, s)], []) /\ default_is_dynamic tokens s ty = false.
+Proof. exact (fun s ty H => conj (digits_are_one_number s H) (integer_default_is_static s ty H)). Qed.
+Print Assumptions C10_integer_default_is_static.
 (* the 26 patterns and their order are the ones the model was written from (regenerated from /repo on every run) *)
 Theorem C10_scanner_patterns_pinned : patterns_as_modelled.
 Proof. exact scanner_patterns_pinned. Qed.
